@@ -14,12 +14,30 @@ GEN     Gen_CompressLen: the C01 vector set (incl. mode "compress": shared suffi
         and true: Len() >= len(Pack()), equality when the spec flags the vector plain, Len(rr) against the spec's
         record length, Pack never ErrBuf, PackBuffer with len(buf) in {0, L, L+1, L+2, 2L} (L = spec's LenMsg):
         no error, same octets, in place when len(buf) > max(L, library's predicted uncompressed length) -- AMBIG.
+        SPELLINGS: the statement speaks of every message that can be packed, and the fields packed from escaped text
+        (names; dns:"txt" lists and untagged character-strings; dns:"octet" values) have many spellings of the same
+        octets.  Every vector below 2048 octets is therefore built again with these fields respelled
+        (harness/cmd/wire/lenspell.go; 3 styles: backslash before ordinary characters `\\v`; backslash in runs of digits
+        so that `\\1x`, `\\12x`, `\\12` at the end arise, never a `\\DDD`; mixed by position with `\\DDD` of printable
+        characters, and a trailing backslash on strings; question, owner, RDATA names, name lists, gateway hosts, str /
+        ostr / strs / octet fields by the layout's kinds; hex / base64 / options / SvcParams untouched).  A respelled
+        value is first shown to be the same message (PackBuffer into 2L+64 octets gives the canonical spelling's
+        octets = the spec's EncMsg; otherwise counted as refused and skipped), then the same clauses with the same
+        expected values apply: Pack() succeeds (never ErrBuf), Len() >= len(Pack()) with Compress false and true,
+        compressed <= LenMsg, Len(rr) >= the spec's record length, the 5 PackBuffer sizes; NOT exactness (the
+        statement keeps it to content without escapes).  Mode "spell" of Gen_CompressLen supplies, for every type and
+        every such field, content with digits and letters side by side (3..14 places per record where `\\DD` + non-digit
+        can be written, several strings per list, names of the same make sharing a suffix with owner and question).
 TV      harness `wire lenrec` (random messages: related names, a third plain, some beyond 16384 octets) ->
         Trace_CompressLen: the clauses above judged by TLC, plus the binding of the machines: observed Len()
         and len(Pack()) must EQUAL LenImpl / PackImpl wherever everything outside names is predicted exactly
         (a mismatch there is an infrastructure error: the model would not describe the code).
+        A quarter of the recorded messages are built in one of the respelled styles (event field spell, key suffix
+        :respelled; only where the packer given room makes the canonical octets of it); Trace_CompressLen judges
+        them with the same LenMsg / LenRR, without the exactness clauses and without the binding of the machines.
 
-Finding keys: len/<clause>:<MNEMONIC>[:<feature>][:compress|plain-wire], len/trace-<clause>:<...> for events.
+Finding keys: len/<clause>:<MNEMONIC>[:<feature>][:compress|plain-wire], len/trace-<clause>:<...> for events;
+        respelled variants: len/<clause>:<MNEMONIC>[:<feature>]:respelled[:compress|plain-wire], len/rr-underestimate:<MNEMONIC>:respelled.
 
 Mutants (checks/mutants/C08/*.diff; each `VERIF_REPO=/tmp/wire-x bin/check C08 quick` exits 1):
   hinfo-len.diff        HINFO.len forgets the length octet of Os          -> replay: len/underestimate:HINFO, len/rr-underestimate:HINFO
@@ -28,6 +46,12 @@ Mutants (checks/mutants/C08/*.diff; each `VERIF_REPO=/tmp/wire-x bin/check C08 q
   buf-offbyone.diff     pack buffer sized uncompressedLen - 1             -> replay: len/pack-error:* (overflow packing ...) on every exact message
   lensearch-late.diff   compressionLenSearch enters suffixes at any offset -> replay (compress mode, names pushed across 16384): len/underestimate:multi:compress; TV
   packbuffer-copy.diff  PackBuffer always allocates                       -> replay: len/packbuffer-not-in-place
+  escape-short-decimal.diff escapedNameLen takes a backslash before ANY digit for a \\DDD -> replay, respelled variants only (a canonical
+                        spelling never has a backslash before fewer than three digits): len/underestimate:*:respelled,
+                        len/rr-underestimate:*:respelled, len/pack-errbuf:*:respelled; TV len/trace-*:respelled
+Seed C08-21 (txtLen swallows up to three digits after a backslash, packTxtString needs exactly three): replay, respelled
+  style 2 (`v\\12x`): len/rr-underestimate:TXT|SPF|AVC|NINFO|RESINFO:respelled, len/underestimate:*:respelled:*, len/pack-errbuf:*:respelled
+  (two or more places: mode "spell"); TV len/trace-pack-errbuf / trace-underestimate / trace-rr-underestimate:*:respelled.
 """
 import os, json
 import vp
@@ -49,14 +73,14 @@ def run(ctx):
         c01.gen_jobs(ctx, binp, lay, "len", [
             ("types", 4, s4), ("rrhdr", 1, [0]), ("opts", 1, [0]), ("svcb", 1, [0]), ("gateway", 1, [0]),
             ("nodata", 1, [0]), ("unknown", 1, [0]), ("rcode", 1, [0]), ("sections", 1, [0]),
-            ("big", 1, [0]), ("compress", 1, [0]), ("orders", 1, [0]), ("empty", 1, [0]), ("sizes", 1, [0]), ("straddle", 2, [0, 1]), ("cross", 4, [ctx.seed % 4])], tier=0, module="Gen_CompressLen")
+            ("big", 1, [0]), ("compress", 1, [0]), ("orders", 1, [0]), ("empty", 1, [0]), ("sizes", 1, [0]), ("spell", 1, [0]), ("straddle", 2, [0, 1]), ("cross", 4, [ctx.seed % 4])], tier=0, module="Gen_CompressLen")
         c01.tv(ctx, binp, lay, 1500, 4, sub="lenrec", module="Trace_CompressLen", prefix="len/trace-")
     else:
         mc(ctx, 1, 5)
         c01.gen_jobs(ctx, binp, lay, "len", [
             ("types", 4, [0, 1, 2, 3]), ("cross", 4, [0, 1, 2, 3]), ("compress", 4, [0, 1, 2, 3]), ("rcode", 4, [0, 1, 2, 3]),
             ("rrhdr", 1, [0]), ("opts", 1, [0]), ("svcb", 1, [0]), ("gateway", 1, [0]), ("nodata", 1, [0]),
-            ("unknown", 1, [0]), ("sections", 1, [0]), ("big", 1, [0]), ("orders", 1, [0]), ("empty", 1, [0]), ("sizes", 1, [0]), ("straddle", 8, list(range(8))), ("hdr", 16, [ctx.seed % 16])], tier=1, module="Gen_CompressLen")
+            ("unknown", 1, [0]), ("sections", 1, [0]), ("big", 1, [0]), ("orders", 1, [0]), ("empty", 1, [0]), ("sizes", 1, [0]), ("spell", 1, [0]), ("straddle", 8, list(range(8))), ("hdr", 16, [ctx.seed % 16])], tier=1, module="Gen_CompressLen")
         c01.tv(ctx, binp, lay, 6000, 16, sub="lenrec", module="Trace_CompressLen", prefix="len/trace-")
     if ctx.notes.get("model_mismatch_total"):
         # Len() / len(Pack()) differ from LenImpl / PackImpl where those are exact although no clause of the property is violated
@@ -70,8 +94,11 @@ def run(ctx):
     ctx.assumptions += [
         "messages are well-formed (WireRR!WFMsg) and can be packed; records whose octets the packer gets wrong are C01's findings "
         "(the length clauses are still applied to what was packed)",
-        "names and strings are spelled canonically (the spelling UnpackDomainName / unpackString produce), so 'needs an escape' is a "
-        "property of the octets",
+        "the exactness clause is applied to the canonical spelling only (the spelling UnpackDomainName / unpackString produce), so "
+        "'needs an escape' is a property of the octets; the never-underestimate / always-room clauses are also applied to non-canonical "
+        "spellings of names, character-strings and dns:\"octet\" values: redundant \\X, \\D and \\DD before a non-digit or the end, \\DDD of "
+        "printable characters, a trailing backslash in strings (3 deterministic styles per vector, a quarter of the recorded events); "
+        "other spellings (a trailing backslash in names is not fully qualified; upper/lower case is content, not spelling) are not generated",
         "AMBIG: 'the uncompressed length' in the PackBuffer clause is read as the true length or the library's own Len() with "
         "Compress = false; a buffer must be used in place only when it is larger than both",
         "the exotic features C01 reports on (AMTRELAY discovery bit, NXT bitmaps, backslashes in CAA/URI) are not generated by the recorder",
